@@ -24,7 +24,7 @@ EXPLANATION = (
 )
 ASSUMPTIONS = ["CPython ast parses /repo's source as the interpreter would",
                "getattr/__getattr__ forwarding in FlippedSignature/FlippedInterface is opaque; only explicit methods are checked"]
-MIN_INSTANCES = {"R-14h": 14, "R-14f": 3, "R-14g": 1, "R-14e": 2, "R-14a": 10, "R-14b": 6, "R-14c": 6, "R-14d": 5}
+MIN_INSTANCES = {"R-14i": 2, "R-14h": 14, "R-14f": 3, "R-14g": 1, "R-14e": 2, "R-14a": 10, "R-14b": 6, "R-14c": 6, "R-14d": 5}
 
 
 def r14a(model, ctx):
@@ -404,4 +404,34 @@ def r14h(model, ctx):
     run_ref_file(model, ctx, "R-14h", "c14_wiring")
 
 
-RULES = [("R-14h", r14h), ("R-14f", r14f), ("R-14g", r14g), ("R-14e", r14e), ("R-14a", r14a), ("R-14b", r14b), ("R-14c", r14c), ("R-14d", r14d)]
+
+def r14i(model, ctx):
+    """(1) connect() compares widths and initial values of ALL members at a path before it looks at how many outputs there
+    are: the "no output here, nothing to connect" shortcut comes after the comparison loop (an input-only leaf is checked
+    too); (2) is_compliant's walk over an array dimension stops early only after a failure, and only when no reasons are
+    being collected."""
+    R = "R-14i"
+    from ..engine.astutil import parent_map, dominating_conditions
+    f = model.func(f"{W}::connect")
+    shortcut = [n for n in ast.walk(f) if isinstance(n, ast.If) and unparse(n.test) in ("len(out_kind) == 0", "not out_kind") and
+                n.body and isinstance(n.body[0], ast.Continue)]
+    cmp_loops = [n for n in ast.walk(f) if isinstance(n, ast.For) and unparse(n.iter).replace(" ", "") in ("in_kind+out_kind", "out_kind+in_kind")]
+    need(len(shortcut) == 1 and len(cmp_loops) == 1, "connect: the no-output shortcut / the comparison loop were not found")
+    ctx.check(cmp_loops[0].lineno < shortcut[0].lineno, R, "connect:compare-before-shortcut",
+              "widths and initial values are compared before the no-output shortcut",
+              "connect() skips a path without outputs before comparing the members at that path: a width or initial-value "
+              "mismatch on a leaf that is an input everywhere is silently accepted", f"{W}:{shortcut[0].lineno}")
+    g = model.func(f"{W}::Signature.is_compliant.check_dimensions")
+    pm = parent_map(g)
+    brk = [n for n in ast.walk(g) if isinstance(n, ast.Break)]
+    need(brk, "is_compliant.check_dimensions: the early exit of the element loop was not found")
+    for b in brk:
+        conds = [(unparse(t), pol) for t, pol in dominating_conditions(pm, b, g)]
+        after_failure = any(t.startswith("not check_dimensions(") and pol or t.startswith("check_dimensions(") and not pol for t, pol in conds)
+        quiet = ("reasons is None", True) in conds or ("reasons is not None", False) in conds
+        ctx.check(after_failure and quiet, R, "is_compliant.check_dimensions:early-exit", "break only after a failed element, without reasons",
+                  f"the element loop of check_dimensions leaves early under {conds}: it may stop only after an element failed (and no "
+                  f"reasons are collected); otherwise only element 0 of every array is checked", f"{W}:{b.lineno}")
+
+
+RULES = [("R-14i", r14i), ("R-14h", r14h), ("R-14f", r14f), ("R-14g", r14g), ("R-14e", r14e), ("R-14a", r14a), ("R-14b", r14b), ("R-14c", r14c), ("R-14d", r14d)]
